@@ -10,24 +10,42 @@ Inductive arg :=
 | AInt (z : Z)        (* integer literal or integer variable *)
 | AStrInt (z : Z)     (* string holding the decimal text of z *)
 | ANil                (* nil *)
-| AStrBad.            (* string that is not a number *)
+| AStrBad             (* string that int() rejects: not a number, or a decimal fraction like '2.5' *)
+| AFloat (m : Z) (e : nat)   (* the float m / 10^e *)
+| ABool (b : bool)
+| AInf.               (* float infinity or NaN *)
+
+(* int(float) truncates towards zero *)
+Definition float_trunc (m : Z) (e : nat) : Z := Z.quot m (10 ^ Z.of_nat e).
+
+(* liquid.limits.to_int on these values: the integer, or the Python error class *)
+Inductive toint := TI (z : Z) | TIValueError | TITypeError.
+Definition to_int (a : arg) : toint :=
+  match a with
+  | AInt z | AStrInt z => TI z
+  | AFloat m e => TI (float_trunc m e)
+  | ABool b => TI (if b then 1 else 0)%Z
+  | ANil => TITypeError
+  | AStrBad | AInf => TIValueError         (* int(inf) is OverflowError, which to_int turns into ValueError *)
+  end.
 
 (* LoopExpression._to_int : to_int, ValueError/TypeError -> LiquidTypeError *)
 Definition to_int_arg (a : arg) : res Z :=
-  match a with AInt z | AStrInt z => Ok z | ANil | AStrBad => Err EType end.
+  match to_int a with TI z => Ok z | _ => Err EType end.
 
 Inductive off := OffNone | OffContinue | OffArg (a : arg).
 
 Inductive iterable :=
 | ItList (l : list Z) | ItRange (a b : Z) | ItStr (s : str) | ItDict (l : list (str * Z)) | ItOther.
 
-(* _to_iter: the items, each already in the textual form the probe body prints *)
-Definition iter_items (it : iterable) : list str :=
+(* _to_iter: the items, each already in the textual form the probe body prints.
+   [strseq] is Environment.string_sequences *)
+Definition iter_items (strseq : bool) (it : iterable) : list str :=
   match it with
   | ItList l => map Z_to_str l
   | ItRange a b => map Z_to_str (zrange_incl a b)
-  | ItStr [] => []
-  | ItStr s => [s]                       (* string_sequences is off: a string is one item *)
+  | ItStr s => if strseq then map (fun c => [c]) s          (* a sequence of its characters *)
+               else match s with [] => [] | _ => [s] end     (* one item, or none for the empty string *)
   | ItDict l => map (fun kv => fst kv ++ [61%N] ++ Z_to_str (snd kv)) l
   | ItOther => []
   end.
@@ -99,13 +117,23 @@ Definition forloop_at (k n : Z) : helpers :=
 (* TableRow.step as a state machine *)
 Record trstate := { tr_index : Z; tr_row : Z; tr_col : Z }.
 Definition tr_init : trstate := {| tr_index := -1; tr_row := 1; tr_col := 0 |}.
+(* `if self._index and self._col == self.ncols` after the index was incremented: a row never ends before its
+   first cell *)
 Definition tr_step (ncols : Z) (s : trstate) : trstate :=
-  if (tr_col s =? ncols)%Z
+  if (negb (tr_index s + 1 =? 0)%Z && (tr_col s =? ncols)%Z)%bool
   then {| tr_index := tr_index s + 1; tr_row := tr_row s + 1; tr_col := 1 |}
   else {| tr_index := tr_index s + 1; tr_row := tr_row s; tr_col := tr_col s + 1 |}.
 
 Fixpoint tr_steps (ncols : Z) (n : nat) (s : trstate) : trstate :=
   match n with O => s | S n' => tr_step ncols (tr_steps ncols n' s) end.
+
+(* before the repair: `if self._col == self.ncols`, so cols = 0 ended a row before the first cell *)
+Definition tr_step_old (ncols : Z) (s : trstate) : trstate :=
+  if (tr_col s =? ncols)%Z
+  then {| tr_index := tr_index s + 1; tr_row := tr_row s + 1; tr_col := 1 |}
+  else {| tr_index := tr_index s + 1; tr_row := tr_row s; tr_col := tr_col s + 1 |}.
+Fixpoint tr_steps_old (ncols : Z) (n : nat) (s : trstate) : trstate :=
+  match n with O => s | S n' => tr_step_old ncols (tr_steps_old ncols n' s) end.
 
 (* ---- stopindex map ---- *)
 Fixpoint sget (k : N) (m : list (N * Z)) : Z :=
@@ -113,7 +141,11 @@ Fixpoint sget (k : N) (m : list (N * Z)) : Z :=
 Definition sset (k : N) (v : Z) (m : list (N * Z)) : list (N * Z) := (k, v) :: m.
 
 (* ---- a small language of loop bodies, enough to observe everything C13 talks about ---- *)
-Record loopx := { lkey : N; liter : iterable; llimit : option arg; loffset : off; lrev : bool }.
+(* [lkey] numbers the offset:continue key "identifier-iterable"; [lname] is that text, which is also forloop.name *)
+Record loopx := { lkey : N; lname : str; liter : iterable; llimit : option arg; loffset : off; lrev : bool }.
+
+(* a helper of a for loop *)
+Inductive hsel := HIndex | HIndex0 | HRindex | HRindex0 | HFirst | HLast | HLength | HName.
 
 Inductive body :=
 | BPrint                       (* item:index:index0:rindex:rindex0:first:last:length;  (or the tablerow helpers) *)
@@ -121,16 +153,19 @@ Inductive body :=
 | BBreakAt (k : Z)             (* {% if <loop>.index == k %}{% break %}{% endif %} *)
 | BContinueAt (k : Z)
 | BText (s : str)
+| BHelper (up : nat) (h : hsel)   (* {{ forloop.parentloop. ... .parentloop.h }} with [up] parentloops; nothing when undefined *)
+| BInclude (b : list body)        (* {% include 'partial' %}: same scope, same loop stack, same stopindex map *)
+| BRender (b : list body)         (* {% render 'partial', ... %}: a fresh context *)
 | BFor (l : loopx) (b : list body) (els : list body)
 | BTablerow (l : loopx) (cols : option arg) (b : list body).
 
 Inductive fkind := KFor | KTable.
-Record frame := { f_kind : fkind; f_item : str; f_h : helpers; f_tr : trstate; f_ncols : Z }.
+Record frame := { f_kind : fkind; f_item : str; f_h : helpers; f_tr : trstate; f_ncols : Z; f_name : str }.
 
 Inductive signal := SNormal | SBreak | SContinue.
 
-Definition eval_loop (l : loopx) (st : list (N * Z)) : res (list str * Z * list (N * Z)) :=
-  let items := iter_items (liter l) in
+Definition eval_loop (strseq : bool) (l : loopx) (st : list (N * Z)) : res (list str * Z * list (N * Z)) :=
+  let items := iter_items strseq (liter l) in
   do limit <- match llimit l with None => Ok None | Some a => do z <- to_int_arg a; Ok (Some z) end;
   do offc <- match loffset l with
              | OffNone => Ok (None, false)
@@ -140,9 +175,12 @@ Definition eval_loop (l : loopx) (st : list (N * Z)) : res (list str * Z * list 
   let '(seg, length_, stop_) := visit items (sget (lkey l) st) limit (fst offc) (snd offc) (lrev l) in
   Ok (seg, length_, sset (lkey l) stop_ st).
 
-(* TablerowNode._int_or_zero: ValueError -> 0, TypeError (nil) escapes *)
+(* TablerowNode._int_or_zero: to_int; ValueError and TypeError -> 0 *)
 Definition int_or_zero (a : arg) : res Z :=
-  match a with AInt z | AStrInt z => Ok z | AStrBad => Ok 0%Z | ANil => Err ETypeError end.
+  match to_int a with TI z => Ok z | _ => Ok 0%Z end.
+(* before the C02 repair the TypeError of a nil cols escaped *)
+Definition int_or_zero_old (a : arg) : res Z :=
+  match to_int a with TI z => Ok z | TIValueError => Ok 0%Z | TITypeError => Err ETypeError end.
 
 Definition join_colon (l : list str) : str :=
   concat_str (map (fun s => s ++ colon) l).
@@ -162,17 +200,33 @@ Fixpoint parent_for (fs : list frame) : option frame :=
   | f :: r => match f_kind f with KFor => Some f | KTable => parent_for r end
   end.
 
+(* the loop stack (context.loops, innermost first): tablerow does not push on it *)
+Definition for_frames (fs : list frame) : list frame :=
+  filter (fun f => match f_kind f with KFor => true | KTable => false end) fs.
+
+Definition helper_text (f : frame) (h : hsel) : str :=
+  match h with
+  | HIndex => Z_to_str (h_index (f_h f))
+  | HIndex0 => Z_to_str (h_index0 (f_h f))
+  | HRindex => Z_to_str (h_rindex (f_h f))
+  | HRindex0 => Z_to_str (h_rindex0 (f_h f))
+  | HFirst => bool_to_str (h_first (f_h f))
+  | HLast => bool_to_str (h_last (f_h f))
+  | HLength => Z_to_str (h_length (f_h f))
+  | HName => f_name f
+  end.
+
 Definition dummy_tr := tr_init.
 
 (* the iteration of a for loop over the visited items, given how to run the body *)
 Definition for_iter (run : list frame -> list (N * Z) -> res (str * list (N * Z) * signal))
-  (fs : list frame) (n : Z) :=
+  (fs : list frame) (name : str) (n : Z) :=
   fix iter (items : list str) (k : Z) (st : list (N * Z)) (acc : str) {struct items}
     : res (str * list (N * Z) * signal) :=
     match items with
     | [] => Ok (acc, st, SNormal)
     | x :: items' =>
-        let f := {| f_kind := KFor; f_item := x; f_h := forloop_at k n; f_tr := dummy_tr; f_ncols := 0 |} in
+        let f := {| f_kind := KFor; f_item := x; f_h := forloop_at k n; f_tr := dummy_tr; f_ncols := 0; f_name := name |} in
         do r <- run (f :: fs) st;
         let '(out, st', sg) := r in
         match sg with
@@ -185,6 +239,9 @@ Definition td_open (col : Z) : str := lit "<td class=""col" ++ Z_to_str col ++ l
 Definition td_close : str := lit "</td>".
 Definition row_break (row : Z) : str := lit "</tr>" ++ [10%N] ++ lit "<tr class=""row" ++ Z_to_str row ++ lit """>".
 
+Definition table_head : str := lit "<tr class=""row1"">" ++ [10%N].
+Definition table_foot : str := lit "</tr>" ++ [10%N].
+
 Definition table_iter (run : list frame -> list (N * Z) -> res (str * list (N * Z) * signal))
   (fs : list frame) (n ncols : Z) :=
   fix iter (items : list str) (k : Z) (t : trstate) (st : list (N * Z)) (acc : str) {struct items}
@@ -194,7 +251,7 @@ Definition table_iter (run : list frame -> list (N * Z) -> res (str * list (N * 
     | x :: items' =>
         let t' := tr_step ncols t in
         let h := forloop_at k n in
-        let f := {| f_kind := KTable; f_item := x; f_h := h; f_tr := t'; f_ncols := ncols |} in
+        let f := {| f_kind := KTable; f_item := x; f_h := h; f_tr := t'; f_ncols := ncols; f_name := [] |} in
         do r <- run (f :: fs) st;
         let '(out, st', sg) := r in
         let cell := td_open (tr_col t') ++ out ++ td_close in
@@ -215,14 +272,8 @@ Definition exec_leaf (fs : list frame) (st : list (N * Z)) (b : body) : option (
                       end, st, SNormal)
       | [] => Ok ([], st, SNormal)
       end
-  | BParent =>
-      Some match fs with
-      | _ :: outer => match parent_for outer with
-                      | Some p => Ok (Z_to_str (h_index (f_h p)), st, SNormal)
-                      | None => Ok ([], st, SNormal)
-                      end
-      | [] => Ok ([], st, SNormal)
-      end
+  | BParent =>                   (* forloop is the innermost FOR loop, also inside a tablerow body *)
+      Some (Ok (match nth_error (for_frames fs) 1 with Some p => Z_to_str (h_index (f_h p)) | None => [] end, st, SNormal))
   | BBreakAt k =>
       Some match fs with
       | f :: _ => Ok ([], st, if (h_index (f_h f) =? k)%Z then SBreak else SNormal)
@@ -234,10 +285,13 @@ Definition exec_leaf (fs : list frame) (st : list (N * Z)) (b : body) : option (
       | [] => Ok ([], st, SNormal)
       end
   | BText s => Some (Ok (s, st, SNormal))
+  | BHelper up h =>
+      Some (Ok (match nth_error (for_frames fs) up with Some f => helper_text f h | None => [] end, st, SNormal))
   | _ => None
   end.
 
-Fixpoint exec (fuel : nat) (fs : list frame) (st : list (N * Z)) (bs : list body)
+(* [dis]: include is a disabled tag (we are inside a template rendered with the render tag) *)
+Fixpoint exec (strseq dis : bool) (fuel : nat) (fs : list frame) (st : list (N * Z)) (bs : list body)
   : res (str * list (N * Z) * signal) :=
   match fuel with
   | O => OutOfFuel
@@ -247,23 +301,31 @@ Fixpoint exec (fuel : nat) (fs : list frame) (st : list (N * Z)) (bs : list body
       | b :: rest =>
           do r <- (match b with
                    | BFor l body els =>
-                       do ev <- eval_loop l st;
+                       do ev <- eval_loop strseq l st;
                        let '(seg, n, st1) := ev in
-                       if (n =? 0)%Z then exec fuel' fs st1 els
-                       else for_iter (fun fs' st' => exec fuel' fs' st' body) fs n seg 0%Z st1 []
+                       if (n =? 0)%Z then exec strseq dis fuel' fs st1 els
+                       else for_iter (fun fs' st' => exec strseq dis fuel' fs' st' body) fs (lname l) n seg 0%Z st1 []
                    | BTablerow l cols body =>
-                       do ev <- eval_loop l st;
+                       do ev <- eval_loop strseq l st;
                        let '(seg, n, st1) := ev in
                        do ncols <- match cols with None => Ok n | Some a => int_or_zero a end;
-                       do r <- table_iter (fun fs' st' => exec fuel' fs' st' body) fs n ncols seg 0%Z tr_init st1 [];
+                       do r <- table_iter (fun fs' st' => exec strseq dis fuel' fs' st' body) fs n ncols seg 0%Z tr_init st1 [];
                        let '(out, st2) := r in
-                       Ok (lit "<tr class=""row1"">" ++ [10%N] ++ out ++ lit "</tr>" ++ [10%N], st2, SNormal)
+                       Ok (table_head ++ out ++ table_foot, st2, SNormal)
+                   | BInclude body => if dis then Err EDisabledTag else exec strseq dis fuel' fs st body
+                   | BRender body =>
+                       do r <- exec strseq true fuel' [] [] body;
+                       let '(out, _, sg) := r in
+                       match sg with
+                       | SNormal => Ok (out, st, SNormal)
+                       | _ => Err ESyntax               (* break/continue outside a loop in the partial *)
+                       end
                    | _ => match exec_leaf fs st b with Some r => r | None => OutOfFuel end
                    end);
           let '(out, st', sg) := r in
           match sg with
           | SNormal =>
-              do r2 <- exec fuel' fs st' rest;
+              do r2 <- exec strseq dis fuel' fs st' rest;
               let '(out2, st2, sg2) := r2 in Ok (out ++ out2, st2, sg2)
           | _ => Ok (out, st', sg)
           end
@@ -272,8 +334,9 @@ Fixpoint exec (fuel : nat) (fs : list frame) (st : list (N * Z)) (bs : list body
 
 Inductive obs := OOut (s : str) | OErr (e : exn) | OFuel.
 
-Definition run_template (bs : list body) : obs :=
-  match exec 40 [] [] bs with
+Record tcase := { t_strseq : bool; t_body : list body }.
+Definition run_template (c : tcase) : obs :=
+  match exec (t_strseq c) false 40 [] [] (t_body c) with
   | Ok (out, _, _) => OOut out
   | Err e => OErr e
   | OutOfFuel => OFuel
